@@ -72,6 +72,9 @@ OpsViol(r) ==
                      /\ (a[1] = 1 => a[2] = b[2])
                      /\ (a[1] = 2 => a[4] = b[4]))
            THEN {"not_kf1"} ELSE {})
+     \* ... and the op list handed to the compaction stage already had exact positions (a carried
+     \* index that was stale before any swap is not the known finding either)
+     \cup (IF "raw" \in DOMAIN r /\ ~PositionsExact(r.os, r.ns, r.raw) THEN {"raw_inexact"} ELSE {})
      \cup (IF anchOk /\ nodl /\ r.alg = "patience"
               /\ CoveredUnique(r.old, r.new, r.os, r.oe, r.ns, r.ne, ops) < AnchorOptimum(oldR, newR)
            THEN {"anchors"} ELSE {})
